@@ -405,8 +405,12 @@ where
         let mut last_ping = Instant::now();
 
         loop {
+            #[cfg(humphrey_verif)]
+            humphrey::verif::point("Loop_Iter", 0, 0);
             if let Some(ref s) = self.shutdown {
                 if s.try_recv().is_ok() {
+                    #[cfg(humphrey_verif)]
+                    humphrey::verif::point("Loop_Shutdown", 0, 0);
                     break;
                 }
             }
@@ -435,6 +439,12 @@ where
 
                     match stream.inner.recv_nonblocking() {
                         Restion::Ok(message) => {
+                            #[cfg(humphrey_verif)]
+                            humphrey::verif::point(
+                                "Loop_Recv",
+                                addr.port() as i64,
+                                1 + 4 * verif_tag(message.bytes()),
+                            );
                             if let Some(handler) = &message_handler {
                                 let async_stream = AsyncStream::new(
                                     addr,
@@ -445,12 +455,23 @@ where
                                 let cloned_state = self.state.clone();
                                 let cloned_handler = handler.clone();
 
+                                #[cfg(humphrey_verif)]
+                                let cloned_handler = {
+                                    let (h, p) = (cloned_handler, addr.port() as i64);
+                                    let t = 1 + 4 * verif_tag(message.bytes());
+                                    move |s: AsyncStream<StreamState>, m: Message, st: Arc<State>| {
+                                        humphrey::verif::point("Task_Start", p, t);
+                                        (h)(s, m, st)
+                                    }
+                                };
                                 self.thread_pool.execute(move || {
                                     (cloned_handler)(async_stream, message, cloned_state)
                                 });
                             }
                         }
                         Restion::Err(_) => {
+                            #[cfg(humphrey_verif)]
+                            humphrey::verif::point("Loop_Recv", addr.port() as i64, 2);
                             if let Some(handler) = &disconnect_handler {
                                 let async_stream = AsyncStream::disconnected(
                                     addr,
@@ -461,11 +482,21 @@ where
                                 let cloned_state = self.state.clone();
                                 let cloned_handler = handler.clone();
 
+                                #[cfg(humphrey_verif)]
+                                let cloned_handler = {
+                                    let (h, p) = (cloned_handler, addr.port() as i64);
+                                    move |s: AsyncStream<StreamState>, st: Arc<State>| {
+                                        humphrey::verif::point("Task_Start", p, 2);
+                                        (h)(s, st)
+                                    }
+                                };
                                 self.thread_pool
                                     .execute(move || (cloned_handler)(async_stream, cloned_state));
                             }
 
                             self.streams.remove(&addr);
+                            #[cfg(humphrey_verif)]
+                            humphrey::verif::point("Loop_Remove", addr.port() as i64, 0);
                             break 'inner;
                         }
                         Restion::None => break 'inner,
@@ -476,6 +507,8 @@ where
                     // If the stream has timed out without sending a close frame, process it as a disconnection.
                     if let Some(ping) = &self.heartbeat {
                         if stream.inner.last_pong.elapsed() >= ping.timeout {
+                            #[cfg(humphrey_verif)]
+                            humphrey::verif::point("Loop_Timeout", addr.port() as i64, 0);
                             if let Some(handler) = &disconnect_handler {
                                 let async_stream = AsyncStream::disconnected(
                                     addr,
@@ -486,11 +519,21 @@ where
                                 let cloned_state = self.state.clone();
                                 let cloned_handler = handler.clone();
 
+                                #[cfg(humphrey_verif)]
+                                let cloned_handler = {
+                                    let (h, p) = (cloned_handler, addr.port() as i64);
+                                    move |s: AsyncStream<StreamState>, st: Arc<State>| {
+                                        humphrey::verif::point("Task_Start", p, 2);
+                                        (h)(s, st)
+                                    }
+                                };
                                 self.thread_pool
                                     .execute(move || (cloned_handler)(async_stream, cloned_state));
                             }
 
                             self.streams.remove(&addr);
+                            #[cfg(humphrey_verif)]
+                            humphrey::verif::point("Loop_Remove", addr.port() as i64, 1);
                             continue;
                         }
                     }
@@ -509,6 +552,8 @@ where
                 .filter_map(|s| s.peer_addr().map(|a| (a, s)).ok())
             {
                 let stream_state = Arc::new(StreamState::default());
+                #[cfg(humphrey_verif)]
+                humphrey::verif::point("Loop_Admit", addr.port() as i64, 0);
 
                 if let Some(handler) = &connect_handler {
                     let async_stream =
@@ -516,6 +561,14 @@ where
                     let cloned_state = self.state.clone();
                     let cloned_handler = handler.clone();
 
+                    #[cfg(humphrey_verif)]
+                    let cloned_handler = {
+                        let (h, p) = (cloned_handler, addr.port() as i64);
+                        move |s: AsyncStream<StreamState>, st: Arc<State>| {
+                            humphrey::verif::point("Task_Start", p, 0);
+                            (h)(s, st)
+                        }
+                    };
                     self.thread_pool.execute(move || {
                         (cloned_handler)(async_stream, cloned_state);
                     });
@@ -533,17 +586,43 @@ where
             for message in self.outgoing_messages.try_iter() {
                 match message {
                     OutgoingMessage::Message(addr, message) => {
+                        #[cfg(humphrey_verif)]
+                        humphrey::verif::point(
+                            "Loop_Flush",
+                            addr.port() as i64,
+                            (if self.streams.contains_key(&addr) { 1 } else { 3 })
+                                + 4 * verif_tag(message.bytes()),
+                        );
                         if let Some(stream) = self.streams.get_mut(&addr) {
                             // Ignore errors with sending for now, and deal with them in the next iteration.
                             stream.inner.send(message).ok();
                         }
                     }
                     OutgoingMessage::Broadcast(message) => {
+                        #[cfg(humphrey_verif)]
+                        let verif_bc = verif_tag(message.bytes());
+                        #[cfg(humphrey_verif)]
+                        let mut verif_keys = self
+                            .streams
+                            .keys()
+                            .map(|a| a.port() as i64)
+                            .collect::<Vec<i64>>()
+                            .into_iter();
+                        #[cfg(humphrey_verif)]
+                        humphrey::verif::point("Loop_Bcast", self.streams.len() as i64, verif_bc);
                         let frame = message.to_frame();
                         for stream in self.streams.values_mut() {
+                            #[cfg(humphrey_verif)]
+                            humphrey::verif::point(
+                                "Loop_Flush",
+                                verif_keys.next().unwrap_or(0),
+                                2 + 4 * verif_bc,
+                            );
                             // Ignore errors with sending for now, and deal with them in the next iteration.
                             stream.inner.send_raw(&frame).ok();
                         }
+                        #[cfg(humphrey_verif)]
+                        humphrey::verif::point("Loop_BcastEnd", 0, verif_bc);
                     }
                 }
             }
@@ -553,6 +632,8 @@ where
             }
         }
         self.thread_pool.stop();
+        #[cfg(humphrey_verif)]
+        humphrey::verif::point("Loop_Exit", 0, 0);
     }
 
     /// Registers a shutdown signal to gracefully shutdown the app
@@ -620,4 +701,16 @@ impl AsyncSender {
     pub fn broadcast(&self, message: Message) {
         self.0.send(OutgoingMessage::Broadcast(message)).ok();
     }
+}
+
+/// Verification hook helper (only compiled with `--cfg humphrey_verif`): a 60-bit FNV-1a tag that
+/// identifies a payload in the events reported through `humphrey::verif::point`.
+#[cfg(humphrey_verif)]
+fn verif_tag(bytes: &[u8]) -> i64 {
+    let mut h: u64 = 0xcbf29ce484222325;
+    for b in bytes {
+        h ^= *b as u64;
+        h = h.wrapping_mul(0x100000001b3);
+    }
+    (h & 0x0fff_ffff_ffff_ffff) as i64
 }
